@@ -25,6 +25,10 @@ def main():
             print(n, "PATCH DOES NOT APPLY", out); results[n] = "patch-failed"; continue
         try:
             res = {}
+            saved = {}
+            for c in checks:      # evidence committed in /verif must come from the unchanged tree: save and restore it
+                ev = os.path.join(ROOT, "evidence", "%s.json" % c)
+                saved[ev] = open(ev).read() if os.path.exists(ev) else None
             for c in checks:
                 t = time.time()
                 rc, out = sh([os.path.join(ROOT, "check"), c, "--tier", "quick"], cwd=ROOT)
@@ -34,6 +38,13 @@ def main():
             results[n] = res
         finally:
             sh(["git", "-C", REPO, "checkout", "--", "."])
+            for ev, txt in saved.items():
+                if txt is not None:
+                    open(ev, "w").write(txt)
+    allp = os.path.join(ROOT, "seeded", "RESULTS_ALL.json")
+    allr = json.load(open(allp)) if os.path.exists(allp) else {}
+    allr.update(results)
+    json.dump(allr, open(allp, "w"), indent=1)
     json.dump(results, open(os.path.join(ROOT, "seeded", "RESULTS.json"), "w"), indent=1)
     return 0
 
